@@ -198,22 +198,18 @@ func encodeAndSplitGSM7Packed(content string, frameKey byte) ([][]byte, datacodi
 	}
 
 	perMsgLength := datacoding.SplitBy153
-	msgCount := ceil(len(contentBytes), perMsgLength)
-	res := make([][]byte, 0, msgCount)
+	res := make([][]byte, 0, ceil(len(contentBytes), perMsgLength)+1)
 
-	begin, end := 0, perMsgLength
-	for idx := 0; idx < msgCount; idx++ {
-		if end > len(contentBytes) {
+	// Moving an escape indicator into the next part shifts every later boundary, so the number of parts
+	// is only known once the whole input has been consumed: cut until nothing is left, then fill in `total`.
+	for begin := 0; begin < len(contentBytes); {
+		end := begin + perMsgLength
+		if end >= len(contentBytes) {
 			end = len(contentBytes)
-		}
-		if begin >= end {
-			continue
-		}
-
-		// Boundary case: When the last byte of a non-final part happens to be the indicator for an extended character,
-		// cutting at this point would split these two bytes.
-		// To avoid this scenario, the preceding part should pack one byte less, ensuring that 0x1b is placed within the next byte.
-		if idx != msgCount-1 && contentBytes[end-1] == gsm7encoding.EscapeSequence {
+		} else if contentBytes[end-1] == gsm7encoding.EscapeSequence {
+			// Boundary case: When the last byte of a non-final part happens to be the indicator for an extended character,
+			// cutting at this point would split these two bytes.
+			// To avoid this scenario, the preceding part should pack one byte less, ensuring that 0x1b is placed within the next byte.
 			end--
 		}
 
@@ -222,9 +218,9 @@ func encodeAndSplitGSM7Packed(content string, frameKey byte) ([][]byte, datacodi
 		contentByte = append(contentByte, longMsgHeader6ByteFrameKey)
 		contentByte = append(contentByte, longMsgHeader6ByteFrameTotal)
 		contentByte = append(contentByte, longMsgHeader6ByteFrameNum)
-		contentByte = append(contentByte, frameKey)       // frameKey
-		contentByte = append(contentByte, byte(msgCount)) // total
-		contentByte = append(contentByte, byte(idx+1))    // num
+		contentByte = append(contentByte, frameKey)         // frameKey
+		contentByte = append(contentByte, 0)                // total, see below
+		contentByte = append(contentByte, byte(len(res)+1)) // num
 
 		// pack
 		packed := gsm7encoding.Pack(contentBytes[begin:end])
@@ -233,7 +229,9 @@ func encodeAndSplitGSM7Packed(content string, frameKey byte) ([][]byte, datacodi
 		res = append(res, contentByte)
 
 		begin = end
-		end += perMsgLength
+	}
+	for idx := range res {
+		res[idx][4] = byte(len(res))
 	}
 
 	return res, dataCoding, nil
